@@ -1,6 +1,6 @@
 (** Property C09 — the theorems the check counts as obligations.  Nothing but
     statements closed by [exact] and [Print Assumptions]. *)
-From HS Require Import Base.Prelude C09.Model C09.Resource.
+From HS Require Import Base.Prelude C09.Model C09.Resource C09.Sync.
 From Coq Require Import Sorting.Sorted.
 Local Open Scope Z_scope.
 
@@ -66,3 +66,115 @@ Theorem c09_resource_arrival_order_partial : forall cap ops now amt w rest i, 0 
   r_waiters s = w :: rest -> wamt w <= amt -> snd (r_step s (RAcquire now amt)) <> OGranted i.
 Proof. exact resource_no_overtaking_partial. Qed.
 Print Assumptions c09_resource_arrival_order_partial.
+
+(* ------------------------------------------------------------------ *)
+(** * Mutex (clients release only while they hold the lock) *)
+
+(** At most one holder (a client in its critical section, or the waiter the
+    lock has been handed to); locked <-> exactly one holder; nobody waits on an
+    unlocked mutex. *)
+Theorem c09_mutex_exclusion : forall ops, m_legit_run m_init ops ->
+  let s := m_run m_init ops in
+  (length (m_cs s) + length (m_woken s) <= 1)%nat /\
+  (m_locked s = true -> (length (m_cs s) + length (m_woken s) = 1)%nat) /\
+  (m_locked s = false -> m_cs s = [] /\ m_woken s = [] /\ m_waiters s = []).
+Proof. exact mutex_exclusion. Qed.
+Print Assumptions c09_mutex_exclusion.
+
+Theorem c09_mutex_fifo_handoff : forall s c now w enq rest, m_locked s = true -> m_waiters s = (w, enq) :: rest ->
+  snd (m_step s (MRelease c now)) = YWoken [w] /\
+  m_waiters (fst (m_step s (MRelease c now))) = rest /\
+  m_locked (fst (m_step s (MRelease c now))) = true /\
+  (forall c' now', m_waiters (fst (m_step s (MAcqStart c' now'))) = m_waiters s ++ [(c', now')]).
+Proof. exact mutex_fifo_handoff. Qed.
+Print Assumptions c09_mutex_fifo_handoff.
+
+Theorem c09_mutex_no_overtaking : forall ops c now, m_legit_run m_init ops ->
+  let s := m_run m_init ops in
+  (snd (m_step s (MAcqStart c now)) = YDelay0 \/ snd (m_step s (MTry c)) = YTrue) -> m_waiters s = [].
+Proof. exact mutex_no_overtaking. Qed.
+Print Assumptions c09_mutex_no_overtaking.
+
+(** Waiting is free (after the repair): a blocked acquire parks on a future
+    instead of re-yielding a zero delay; the resume after the hand-off finishes;
+    a resume without hand-off would park again without touching the state. *)
+Theorem c09_mutex_wait_is_parked : forall s c now, m_locked s = true ->
+  snd (m_step s (MAcqStart c now)) = YPark /\
+  (forall enq now', assoc_find c (m_woken s) = Some enq -> snd (m_step s (MAcqResume c now')) = YDone) /\
+  (forall now', assoc_find c (m_woken s) = None -> m_step s (MAcqResume c now') = (s, YPark)).
+Proof. exact mutex_wait_is_parked. Qed.
+Print Assumptions c09_mutex_wait_is_parked.
+
+(* ------------------------------------------------------------------ *)
+(** * Semaphore *)
+
+Theorem c09_semaphore_bounds : forall cap ops, 0 < cap ->
+  let s := s_run (s_init cap) ops in
+  s_cap s = cap /\ 0 <= s_count s <= cap /\
+  match s_waiters s with [] => True | w :: _ => s_count s < wamt w end.
+Proof. exact semaphore_bounds. Qed.
+Print Assumptions c09_semaphore_bounds.
+
+Theorem c09_semaphore_conservation : forall cap ops, 0 < cap -> s_legit_run (s_init cap) ops ->
+  let s := s_run (s_init cap) ops in s_count s + s_out s = cap /\ 0 <= s_out s <= cap.
+Proof. exact semaphore_conservation. Qed.
+Print Assumptions c09_semaphore_conservation.
+
+Theorem c09_semaphore_fifo_wake : forall s k now s' woken, s_step s (SRelease k now) = (s', YWoken woken) ->
+  exists pre, s_waiters s = pre ++ s_waiters s' /\ woken = map wid pre /\ s_woken s' = s_woken s ++ pre.
+Proof. exact semaphore_fifo_wake. Qed.
+Print Assumptions c09_semaphore_fifo_wake.
+
+Theorem c09_semaphore_arrival_order_refuted : ~ s_no_overtaking.
+Proof. exact s_no_overtaking_refuted. Qed.
+Print Assumptions c09_semaphore_arrival_order_refuted.
+
+Theorem c09_semaphore_arrival_order_partial : forall cap ops c k now w rest, 0 < cap ->
+  let s := s_run (s_init cap) ops in
+  s_waiters s = w :: rest -> wamt w <= k -> snd (s_step s (SAcqStart c k now)) <> YDelay0.
+Proof. exact s_no_overtaking_partial. Qed.
+Print Assumptions c09_semaphore_arrival_order_partial.
+
+Theorem c09_semaphore_wait_is_parked : forall s c k now, 1 <= k <= s_cap s -> s_count s < k ->
+  snd (s_step s (SAcqStart c k now)) = YPark /\
+  (forall ke now', w_find c (s_woken s) = Some ke -> snd (s_step s (SAcqResume c now')) = YDone).
+Proof. exact semaphore_wait_is_parked. Qed.
+Print Assumptions c09_semaphore_wait_is_parked.
+
+(* ------------------------------------------------------------------ *)
+(** * RWLock (clients release only locks they hold) *)
+
+(** On the holders: at most one writer, a writer excludes every reader, readers
+    never exceed max_readers, and the counters equal the holder sets. *)
+Theorem c09_rwlock_exclusion : forall mx ops, max_ok mx -> rw_legit_run (rw_init mx) ops ->
+  let s := rw_run (rw_init mx) ops in
+  (length (rw_wr s) <= 1)%nat /\ (rw_wr s <> [] -> rw_rd s = []) /\
+  le_max mx (Z.of_nat (length (rw_rd s))) /\
+  Z.of_nat (length (rw_rd s)) = rw_readers s /\ (rw_wlocked s = true <-> rw_wr s <> []).
+Proof. exact rwlock_exclusion. Qed.
+Print Assumptions c09_rwlock_exclusion.
+
+(** The head of the queue is really blocked in every reachable state. *)
+Theorem c09_rwlock_no_stranding : forall mx ops, max_ok mx -> rw_legit_run (rw_init mx) ops ->
+  rw_head (rw_run (rw_init mx) ops).
+Proof. exact rwlock_no_stranding. Qed.
+Print Assumptions c09_rwlock_no_stranding.
+
+Theorem c09_rwlock_writer_preference : forall s c, has_waiting_writer s = true ->
+  rw_try_read s c = (s, false) /\ snd (rw_step s (RWAcqRStart c 0)) = YPark.
+Proof. exact rwlock_writer_preference. Qed.
+Print Assumptions c09_rwlock_writer_preference.
+
+Theorem c09_rwlock_fifo_wake : forall mx ops o wk, max_ok mx -> rw_legit_run (rw_init mx) ops ->
+  let s := rw_run (rw_init mx) ops in
+  snd (rw_step s o) = YWoken wk ->
+  exists pre, rw_waiters s = pre ++ rw_waiters (fst (rw_step s o)) /\ wk = map wclient pre.
+Proof. exact rwlock_fifo_wake. Qed.
+Print Assumptions c09_rwlock_fifo_wake.
+
+Theorem c09_rwlock_no_overtaking : forall mx ops c now, max_ok mx -> rw_legit_run (rw_init mx) ops ->
+  let s := rw_run (rw_init mx) ops in
+  (snd (rw_step s (RWAcqRStart c now)) = YDelay0 \/ snd (rw_step s (RWAcqWStart c now)) = YDelay0) ->
+  rw_waiters s = [].
+Proof. exact rwlock_no_overtaking. Qed.
+Print Assumptions c09_rwlock_no_overtaking.
